@@ -114,6 +114,10 @@ def _optimize(
                             progress_bar,
                         )
                     )
+
+                # Raise if exception occurred in executing the trials still in flight.
+                for f in futures:
+                    f.result()
     finally:
         study._thread_local.in_optimize_loop = False
         progress_bar.close()
